@@ -37,7 +37,7 @@ def run(ck, pid=PID, level="cache", props=PROPS):
     if ck.replay:
         return replay(ck, pid, level, props, ppath, trace_cfg)
 
-    probes = ["H3", "Alias", "ErrLeak", "Split"] if level == "cache" else ["Stale"]
+    probes = ["H3", "Alias", "ErrLeak", "Split"] if level == "cache" else ["Stale", "H3", "Alias", "ErrLeak", "Split"]
     # thorough: the probes are re-derived by TLC (shortest counterexample per deviation switch), in parallel
     derived = {}
     threads = []
@@ -79,6 +79,9 @@ def run(ck, pid=PID, level="cache", props=PROPS):
             if thorough:
                 ck.notes.append("probe %s not re-derived (%s), recorded counterexample used" % (name, d))
             scripts.append(su.probe(name))
+    # coverage scenarios that must be part of every run (batch write failure, explicit flush vs in-flight batch)
+    scripts += [su.cover(n) for n in sorted(su.COVER)]
+    ck.setcov("coverage_scenarios", sorted(su.COVER))
     c = su.cfg_constants(gen_cfg)
     depth = int(c["GenLen"]) + 1
     for s in range(4 if thorough else 1):
@@ -99,7 +102,21 @@ def run(ck, pid=PID, level="cache", props=PROPS):
     ck.setcov("gate_timeouts", sum(r["timeouts"] for r in idx_steer) + sum(r["timeouts"] for r in idx_stress))
 
     # 3. validation of the real logs
-    v1 = su.validate(ck, t_steer, trace_cfg, timeout=2400)
+    # the deviation switches of the tree are determined on the probes alone (they discriminate every switch;
+    # cheap), the bulk is then validated under that assignment only
+    n_probe_rec = idx_steer[len(probes) - 1]["end"]
+    t_probe = os.path.join(ck.tmp, "probes.ndjson")
+    vkit.write_ndjson(t_probe, vkit.read_ndjson(t_steer)[:n_probe_rec])
+    v0 = su.validate(ck, t_probe, trace_cfg, timeout=1200)
+    if not v0.accepted:
+        su.judge(ck, pid, v0, t_probe, idx_steer, scripts, level, props, "probes")
+        ck.setcov("traces_validated_against_impl", len(probes))
+        for m in models:
+            m.join()
+        return
+    v1 = su.validate(ck, t_steer, trace_cfg, only_world=v0.world, timeout=2400)
+    if not v1.accepted:     # a probe that was not steered exactly may not discriminate: full search before a verdict
+        v1 = su.validate(ck, t_steer, trace_cfg, timeout=2400)
     v2 = su.validate(ck, t_stress, trace_cfg, only_world=v1.world if v1.accepted else None, timeout=2400)
     ck.setcov("traces_validated_against_impl", len(scripts) + n_stress)
     ck.setcov("steered_behaviours", len(scripts))
